@@ -54,6 +54,14 @@ def entry_points():
     for name, sp in anal.items():
         ep[name + '.integrate(analytical)'] = (lambda w, sp=sp: sp.integrate(wavelengths=w, integration_type='analytical').value)
     ep['lorentz_bandpass.equivwidth(analytical)'] = lambda w: anal['lorentz_bandpass'].equivwidth(wavelengths=w, integration_type='analytical').value
+    # tables covering only the middle of the wavelength sets: the samples beyond their ends are held at the end values
+    narrow_src = SourceSpectrum(Empirical1D, points=[1800., 2200., 2600., 3100.], lookup_table=[1.5, 3., 2., 0.5])
+    narrow_bp = SpectralElement(Empirical1D, points=[1700., 2100., 2900., 3300.], lookup_table=[0.25, 0.75, 1., 0.5])
+    ep['narrow_source.__call__'] = lambda w: narrow_src(w).value
+    ep['narrow_source.__call__(flux_unit)'] = lambda w: narrow_src(w, flux_unit='fnu').value
+    ep['narrow_source.integrate'] = lambda w: narrow_src.integrate(wavelengths=w, integration_type='trapezoid').value
+    ep['narrow_bandpass.__call__'] = lambda w: narrow_bp(w).value
+    ep['narrow_bandpass.avgwave'] = lambda w: narrow_bp.avgwave(wavelengths=w).value
     ep.update({
         'source.__call__': lambda w: src(w).value,
         'source.__call__(flux_unit)': lambda w: src(w, flux_unit='flam').value,
@@ -89,8 +97,8 @@ def entry_points():
         'observation.sample_binned': lambda w: obs.sample_binned(wavelengths=w).value,
         'observation.effstim': lambda w: obs.effstim('flam', wavelengths=w).value,
         'observation.countrate(binned)': lambda w: obs.countrate(area, wavelengths=w).value,
-        'observation.countrate(binned, waverange)': lambda w: obs.countrate(area, wavelengths=w, waverange=[1500., 2500.], force=True).value,
-        'observation.countrate(unbinned, waverange)': lambda w: obs.countrate(area, binned=False, wavelengths=w, waverange=[1500., 2500.], force=True).value,
+        'observation.countrate(binned, waverange)': lambda w: obs.countrate(area, wavelengths=w, waverange=[1500.25, 2500.25], force=True).value,
+        'observation.countrate(unbinned, waverange)': lambda w: obs.countrate(area, binned=False, wavelengths=w, waverange=[1500.25, 2500.25], force=True).value,
         'observation.countrate(unbinned)': lambda w: obs.countrate(area, binned=False, wavelengths=w).value,
         'observation.effective_wavelength(binned)': lambda w: obs.effective_wavelength(wavelengths=w).value,
         'observation.effective_wavelength(unbinned)': lambda w: obs.effective_wavelength(binned=False, wavelengths=w).value,
